@@ -478,6 +478,21 @@ int __wrap_poll(struct pollfd *fds, nfds_t nfds, int timeout)
   }
 }
 
+/* sleeping is waiting for virtual time: a blocking point like a poll without descriptors */
+static int sleep_ms(long ms)
+{
+  if (ms <= 0) return 0;
+  struct pollfd none = { -1, 0, 0 };
+  return __wrap_poll(&none, 0, ms > 1000000 ? 1000000 : (int) ms) < 0 ? -1 : 0;
+}
+int __wrap_nanosleep(const struct timespec *req, struct timespec *rem)
+{ if (rem) { rem->tv_sec = 0; rem->tv_nsec = 0; } return sleep_ms(req->tv_sec * 1000 + (req->tv_nsec + 999999) / 1000000); }
+int __wrap_clock_nanosleep(clockid_t c, int flags, const struct timespec *req, struct timespec *rem)
+{ (void) c; (void) flags; return __wrap_nanosleep(req, rem); }
+int __wrap_usleep(unsigned usec) { return sleep_ms((usec + 999) / 1000); }
+unsigned __wrap_sleep(unsigned sec) { sleep_ms((long) sec * 1000); return 0; }
+int __wrap_sched_yield(void) { return 0; }
+
 int __wrap_ppoll(struct pollfd *fds, nfds_t nfds, const struct timespec *ts, const sigset_t *ss)
 {
   (void) ss;
